@@ -1035,6 +1035,28 @@ func (e *Env) trCall(x *ast.CallExpr) TV {
 			e.fail(x, "tag: not a slice")
 		}
 		return TV{T: app("select", app("select", vc.hget(e.heap, "Tags", tagsSort), app("sid", v.T)), app("idx", v.T, i.T)), S: stInt}
+	case "forkarg":
+		// forkarg(k, name): argument "name" given to the k-th forked thread (the function's unique thread closure)
+		kk := e.tr(arg(0))
+		nm, ok := arg(1).(*ast.Ident)
+		if !ok {
+			e.fail(x, "forkarg(k, paramName)")
+		}
+		root := vc.fn
+		for root != nil && root.Parent() != nil {
+			root = root.Parent()
+		}
+		for _, af := range root.AnonFuncs {
+			if c := vc.lookupContract(funcKey(af)); c != nil && c.Thread {
+				for _, p := range af.Params {
+					if p.Name() == nm.Name {
+						s := sortOf(p.Type())
+						return TV{T: app("select", vc.hget(e.heap, forkArgArr(af, p.Name()), arrSort(s)), kk.T), S: goSType(p.Type())}
+					}
+				}
+			}
+		}
+		e.fail(x, "forkarg: no thread closure parameter %s", nm.Name)
 	case "oldat", "oldtag":
 		// oldat(s, i) / oldtag(s, i): element / ghost tag i of slice s in the old state, the index taken in the current state
 		v := e.tr(arg(0))
